@@ -1342,7 +1342,7 @@ class C04(Property):
         raise ExecError("unknown kind")
 
     def _seq_reqs(self, c, o):
-        if o.get("hung") and o.get("stuck", -1) >= 0:
+        if o.get("stuck", -1) >= 0:
             o = dict(o)             # see _hung_rest
             o["sched"] = list(o["sched"]) + [[o["stuck"], "H"]]
             o["hobs"] = list(o["hobs"]) + [[o["stuck"], "werr"]]
@@ -1355,8 +1355,8 @@ class C04(Property):
             sout = {"wait": "SoWait", "ret": "SoRet"}.get(ro["sout"])
             if sout is None:
                 sout = "(SoPanic %s)" % self._pval(ro["pkind"], ro["pval"])
-            if o.get("stuck", -1) == i:
-                sout = "SoWait"      # one of its handler's actions hung: the request never completed
+            # (a request one of whose handler actions hung: what ServeHTTP did after the Done event that the
+            # executor then produced is in ro["sout"]; "wait" = it has not returned: judged as such)
             dmode = "KDeadline" if rin.get("deadline") else dk.get(i)
             hdrs = clist(["(%s, %s)" % (self._bstr(self._canon(k)), self._bstr(v)) for k, v in rin.get("hdrs", [])])
             rs.append("(mkSR %s)" % " ".join([
